@@ -17,7 +17,7 @@ class C14(Prop):
     level_note = 'Trusted: Lean kernel + standard axioms; datetime arithmetic; the virtual clock patches rsocket.lease.datetime.'
     design_ref = '§5 C14'
     rule = ('sequences of LEASE frames (count 0..5, ttl 0..400 ms) and requests of the four request types at non-decreasing virtual times (incl. exactly at expiry), queue size 0/1/3, with '
-            'and without fragmentation; responder: published leases with counts and time-to-live incl. sub-second parts; non-trivial = a request was held and later released, refused, or '
+            'and without fragmentation, and reconnects in between (each connection starts without a lease); responder: published leases with counts and time-to-live incl. sub-second parts; non-trivial = a request was held and later released, refused, or '
             'sent under a lease close to expiry; distinct = distinct history')
     assumptions = ['whole-millisecond time-to-live values']
 
@@ -34,6 +34,10 @@ class C14(Prop):
                     t = max(t, last_lease[0] + last_lease[1] + rng.choice([-1, 0, 1]))     # right at the expiry
                     if evs and t <= evs[-1][-1]:
                         t = evs[-1][-1] + 1
+                if rng.random() < 0.07:
+                    evs.append(['X', t])          # the client reconnects: a new connection starts without a lease
+                    last_lease = None
+                    continue
                 if rng.random() < 0.3:
                     ttl = rng.choice([0, 1, 50, 100, 400])
                     evs.append(['L', rng.choice([0, 1, 1, 2, 3, 5]), ttl, t])
@@ -52,11 +56,13 @@ class C14(Prop):
         from rsocket.payload import Payload
         from rsocket import frame as F
         from asyncio import QueueFull
-        R = clientrun.ClientRun(loop, n_transports=1, ka_ms=10_000_000, life_ms=100_000_000, honor_lease=True, request_queue_size=case['cap'],
+        nx = len([e for e in case['evs'] if e[0] == 'X'])
+        R = clientrun.ClientRun(loop, n_transports=1 + nx, ka_ms=10_000_000, life_ms=100_000_000, honor_lease=True, request_queue_size=case['cap'],
                                 fragment_size_bytes=case['frag'])
         c = R.build()
         await c.connect()
         await loop.settle()
+        ti = 0
         t = R.transports[0]
         tag = 0
         rejected, model = [], []
@@ -69,6 +75,13 @@ class C14(Prop):
         for e in case['evs']:
             when = e[-1]
             await loop.advance(when - loop.now_ms())
+            if e[0] == 'X':
+                await c.reconnect()
+                await loop.settle()
+                ti += 1
+                t = R.transports[ti]
+                model.append('X')
+                continue
             if e[0] == 'L':
                 fr = F.LeaseFrame()
                 fr.number_of_requests, fr.time_to_live = e[1], e[2]
@@ -91,9 +104,10 @@ class C14(Prop):
                     rejected.append(tag)
             await loop.settle()
         sent = []
-        for (tm, dump, fr, raw) in t.sent:
-            if isinstance(fr, (F.RequestResponseFrame, F.RequestFireAndForgetFrame, F.RequestStreamFrame, F.RequestChannelFrame)):
-                sent.append([fr.data[0], round(tm)])
+        for tr in R.transports:
+            for (tm, dump, fr, raw) in tr.sent:
+                if isinstance(fr, (F.RequestResponseFrame, F.RequestFireAndForgetFrame, F.RequestStreamFrame, F.RequestChannelFrame)):
+                    sent.append([fr.data[0], round(tm)])
         try:
             await c.close()
         except Exception:
@@ -123,14 +137,26 @@ class C14(Prop):
 
     def model_lines(self, case, obs):
         if case['kind'] == 'req':
-            return ['lease %d 0 %s' % (case['cap'], ' '.join(obs['model']))]
+            segs, cur = [], []
+            for m in obs['model']:
+                if m == 'X':
+                    segs.append(cur)
+                    cur = []
+                else:
+                    cur.append(m)
+            segs.append(cur)
+            return ['lease %d 0 %s' % (case['cap'], ' '.join(s)) for s in segs]     # every connection starts from the initial lease state
         return ['announce %d %d' % (n, us) for n, us in case['leases']]
 
     def compare(self, case, obs, answers):
         if case['kind'] == 'req':
             impl = 'sent=%s rejected=%s' % (','.join('%d@%d' % (a, b) for a, b in obs['sent']) or '-', ','.join(map(str, obs['rejected'])) or '-')
-            parts = dict(p.split('=') for p in answers[0].split(' '))
-            model = 'sent=%s rejected=%s' % (parts['sent'], parts['rejected'])
+            ms, mr = [], []
+            for a in answers:
+                parts = dict(p.split('=') for p in a.split(' '))
+                ms += [x for x in parts['sent'].split(',') if x != '-']
+                mr += [x for x in parts['rejected'].split(',') if x != '-']
+            model = 'sent=%s rejected=%s' % (','.join(ms) or '-', ','.join(mr) or '-')
             if impl != model:
                 return 'impl %s / model %s' % (impl, model)
             return None
@@ -147,15 +173,19 @@ class C14(Prop):
             if obs['got'] != exp:
                 fails.append({'signature': 'lease-announcement-wrong', 'what': 'published %s (count, microseconds), announced %s (count, ms)' % (case['leases'], obs['got'])})
             return fails
-        leases = [(e[3], e[1], e[2]) for e in case['evs'] if e[0] == 'L']
+        # a reconnect starts a new connection: the leases of the previous one no longer count
+        leases_all = [(e[3], e[1], e[2]) for e in case['evs'] if e[0] == 'L']
+        cuts = [e[1] for e in case['evs'] if e[0] == 'X']
+        leases = leases_all
         sent = obs['sent']
         tags = [s[0] for s in sent]
         if tags != sorted(tags) or len(set(tags)) != len(tags):
             fails.append({'signature': 'lease-release-order', 'what': 'requests left in order %s (tags are arrival order)' % tags})
         for tg, tm in sent:
-            cur = [l for l in leases if l[0] <= tm]
+            conn_start = max([x for x in cuts if x <= tm], default=-1)
+            cur = [l for l in leases if conn_start <= l[0] <= tm]
             if not cur:
-                fails.append({'signature': 'request-before-first-lease', 'what': 'request %d sent at %d before any LEASE' % (tg, tm)})
+                fails.append({'signature': 'request-before-first-lease', 'what': 'request %d sent at %d before any LEASE of its connection' % (tg, tm)})
                 continue
             at, n, ttl = cur[-1]
             if tm >= at + ttl:
